@@ -127,6 +127,22 @@ def correspondence(ctx):
                 if len(ks) > 0:
                     ctx.disagree("from_versions:" + name, "fromversions %s" % ks, "raises " + type(e).__name__, "a range", True,
                                  {"scheme": name, "versions": texts, "clause": "raises"}, spec="a range")
+        # every version of the pool that has a second spelling: the range built from ONE listed version (a single `=`
+        # constraint: the one-constraint shortcut of membership) contains it in its other spelling
+        for cl in bench.pool.classes:
+            if len(cl) < 2:
+                continue
+            (t1, _v1), (t2, v2) = cl[0], cl[1]
+            ctx.count("from_versions:" + name, key=("single", t1, t2), nontrivial=True, branch="one listed, other spelling")
+            try:
+                got = v2 in rcls.from_versions([t1])
+            except Exception as e:  # noqa: BLE001
+                got = "raises " + type(e).__name__
+            if got is not True:
+                ctx.disagree("from_versions:" + name, "fromversions [%s] probed with %s" % (t1, t2), "%s in result is %s" % (t2, got), "True", True,
+                             {"scheme": name, "versions": [t1], "probe": t2, "clause": "a listed version, spelled differently, is not in the range built from the list"},
+                             spec="contains exactly the listed versions")
+                break
         # lists of neighbours: a version with the versions made from it by replacing one qualifier word by another of the
         # scheme's vocabulary, cutting the qualifier off, respelling: every listed version is in the range built from the list
         from harness import pools as P
